@@ -191,6 +191,11 @@ impl SendStream {
     /// incorrect assumptions about the stream's state.
     pub fn finish(&mut self) -> Result<(), ClosedStream> {
         let mut conn = self.conn.state.lock("finish");
+        if self.is_0rtt && conn.check_0rtt().is_err() {
+            // The stream was discarded along with the rejected 0-RTT data; its ID may be in use by
+            // a stream opened since
+            return Err(ClosedStream::default());
+        }
         match conn.inner.send_stream(self.stream).finish() {
             Ok(()) => {
                 conn.wake();
@@ -237,6 +242,9 @@ impl SendStream {
     /// impact on performance.
     pub fn set_priority(&self, priority: i32) -> Result<(), ClosedStream> {
         let mut conn = self.conn.state.lock("SendStream::set_priority");
+        if self.is_0rtt && conn.check_0rtt().is_err() {
+            return Err(ClosedStream::default());
+        }
         conn.inner.send_stream(self.stream).set_priority(priority)?;
         Ok(())
     }
@@ -244,6 +252,9 @@ impl SendStream {
     /// Get the priority of the send stream
     pub fn priority(&self) -> Result<i32, ClosedStream> {
         let mut conn = self.conn.state.lock("SendStream::priority");
+        if self.is_0rtt && conn.check_0rtt().is_err() {
+            return Err(ClosedStream::default());
+        }
         conn.inner.send_stream(self.stream).priority()
     }
 
